@@ -40,7 +40,10 @@ THEOREMS = ["PairedTests.ig_formula", "PairedTests.var_eq_sample_variance", "Pai
             "PairedTests.t_event_order_irrelevant", "PairedTests.public_t_swap", "PairedTests.public_t_self_zero",
             "PairedTests.public_t_gain", "PairedTests.public_t_scale_same_horizon",
             "PairedTests.binary_eq_paired_of_distinct", "PairedTests.w_public_swap",
-            "PairedTests.w_public_self_degenerate"]
+            "PairedTests.w_public_self_degenerate",
+            # phase 2
+            "PairedTests.ig_strict_mono_rate", "PairedTests.ig_strict_anti_rate", "PairedTests.mag_index_open_top",
+            "PairedTests.mag_index_some_iff"]
 TRUSTED = ["Lean 4.33 kernel", "axioms: propext, Classical.choice, Quot.sound at most",
            "scipy.stats.t.ppf and scipy.stats.norm.sf are parameters of the model (norm.sf in [0,1/2] on [0,inf) is a hypothesis)",
            "scipy.stats.wilcoxon(zero_method='wilcox', correction=False, method='approx') is used as a third opinion on T and p",
@@ -53,11 +56,18 @@ RULE = ("pairs of positive-rate GriddedForecasts on a common CartesianGrid2D (1.
         "cells (repeated cells => exact ties), alpha in {0.01,0.05,0.1} or U(0,1), scale on/off, equal or different "
         "horizons; forecast objects rescaled with .scale(s) before the tests; events anywhere inside their cell and "
         "magnitude bin (exactly on the lower magnitude edge, above the open top edge); stored rates in C / Fortran order, "
-        "strided views, integer dtype; every test called A/B, B/A and A/A. A case is non-trivial when the differences contain a tie, a zero or "
+        "strided views, integer dtype; rates 1e-300..1e-10 in the events' bins; keyword / positional / default call forms "
+        "and direct helper calls; NaN depth / epoch 0 / shared origin times / big-endian catalogs; one case with > 65535 "
+        "events in one bin on > 2^16 bins; sessions of 4-8 calls (tests in any orientation with scale on/off, .scale(), "
+        "catalog cut in place, reads, a twin forecast on the same array) recomputed from scratch after every evaluation; "
+        "every test called A/B, B/A and A/A. A case is non-trivial when the differences contain a tie, a zero or "
         "both signs; distinct by the full input")
 
 DT = [('id', 'S256'), ('origin_time', '<i8'), ('latitude', '<f8'), ('longitude', '<f8'), ('depth', '<f8'),
       ('magnitude', '<f8')]
+
+
+_MIDX = []      # pending bin-index queries (case, driver line, implementation's flat indices)
 
 
 def bits(x):
@@ -130,6 +140,18 @@ def _gen_case(rng):
     scale = rng.random() < 0.4
     days_a = rng.choice([1, 30, 365, 366, 1826])
     days_b = days_a if rng.random() < 0.8 else rng.choice([1, 30, 365])
+    # positive rates far below machine epsilon next to ordinary ones, in bins that host events ("positive-rate forecasts")
+    if rng.random() < 0.3:
+        tiny = [1e-300, 1e-200, 1e-100, 1e-40, 1e-20, 1e-17, 1e-16, 2e-16, 3e-16, 1e-14, 1e-13, 1e-10]
+        a = numpy.array(a, dtype=float).reshape(nc, nm).copy(); b = numpy.array(b, dtype=float).reshape(nc, nm).copy()
+        for (c, m) in set(ev) if rng.random() < 0.7 else [(rng.randrange(nc), rng.randrange(nm))]:
+            if rng.random() < 0.5:
+                which = rng.choice(["a", "b", "both"])
+                if which in ("a", "both"):
+                    a[c, m] = rng.choice(tiny) * rng.uniform(1, 9)
+                if which in ("b", "both"):
+                    b[c, m] = rng.choice(tiny) * rng.uniform(1, 9)
+        kind = kind + "+tiny"
     case = dict(kind=kind, nx=nx, ny=ny, nm=nm, a=[float(v).hex() for v in a.ravel()],
                 b=[float(v).hex() for v in b.ravel()], ev=[list(e) for e in ev], alpha=alpha, scale=scale,
                 days_a=days_a, days_b=days_b)
@@ -149,7 +171,14 @@ def _gen_case(rng):
     # memory layout of the stored rates; integer rates
     lay = rng.random()
     case["layout"] = "C" if lay < 0.55 else ("F" if lay < 0.75 else ("strided" if lay < 0.9 else "C"))
-    if kind == "random" and rng.random() < 0.25:
+    # how the public functions are called (keywords / positional alpha / defaults left out), direct calls of the helpers
+    case["callform"] = rng.choice(["kw", "kw", "positional", "defaults"])
+    if case["callform"] == "defaults":
+        case["alpha"] = 0.05
+    case["helpers"] = rng.random() < 0.3
+    # catalog value classes: unreported depth (NaN), epoch 0, shared origin times, non-native byte order
+    case["catflags"] = [f for f in ("nan-depth", "epoch0", "dup-time", "big-endian") if rng.random() < 0.15]
+    if kind == "random" and rng.random() < 0.25:  # (never combined with "+tiny": kind differs)
         ai = g.integers(1, 10, (nc, nm)); bi = g.integers(1, 10, (nc, nm))
         case["a"] = [float(v).hex() for v in ai.ravel()]
         case["b"] = [float(v).hex() for v in bi.ravel()]
@@ -194,6 +223,15 @@ def _build(case):
     arr['latitude'] = [((c % ny) + p[1]) * 0.1 for (c, _), p in zip(ev, pos)]
     arr['depth'] = 10.0
     arr['magnitude'] = [4.0 + 0.5 * m + p[2] for (_, m), p in zip(ev, pos)]
+    flags = case.get("catflags") or []
+    if "nan-depth" in flags:
+        arr['depth'][::3] = numpy.nan
+    if "epoch0" in flags:
+        arr['origin_time'][0] = 0
+    if "dup-time" in flags and len(ev) > 1:
+        arr['origin_time'][1:] = arr['origin_time'][1]
+    if "big-endian" in flags:
+        arr = arr.astype([(nm_, t.replace('<', '>')) for nm_, t in DT])
     cat = CSEPCatalog(data=arr, region=region)
     return fa, fb, cat, a, b
 
@@ -234,8 +272,8 @@ def _ref_t(ra, rb, n, na, nb, alpha):
 
 def _ref_w(x, m):
     """signed-rank arithmetic in exact rationals on d = x - m (float64 subtraction), average ranks for ties"""
-    d = [float(v) for v in (numpy.asarray(x, dtype=float) - float(m))]
-    d = [v for v in d if v != 0.0]
+    d0 = [float(v) for v in (numpy.asarray(x, dtype=float) - float(m))]
+    d = [v for v in d0 if v != 0.0]
     c = len(d)
     ab = sorted(abs(v) for v in d)
     rank = {}
@@ -253,7 +291,7 @@ def _ref_w(x, m):
     t = min(rp, rm)
     mn = Fraction(c * (c + 1), 4)
     se24 = Fraction(c * (c + 1) * (2 * c + 1)) - Fraction(sum(k * (k * k - 1) for k in ties if k > 1), 2)
-    return dict(count=c, t2=2 * t, mn4=4 * mn, se24=se24, rp=rp, rm=rm, d=d,
+    return dict(count=c, t2=2 * t, mn4=4 * mn, se24=se24, rp=rp, rm=rm, d=d, d0=d0,
                 tie=any(k > 1 for k in ties), signs=(rp > 0 and rm > 0))
 
 
@@ -269,14 +307,30 @@ def _check(run, drv, pending, case, tag):
     nm = case["nm"]
     short = dict(case, tag=tag)
     out = {}
-    for name, fn, args, kw in [
-            ("tAB", pe.paired_t_test, (fa, fb, cat), dict(alpha=alpha, scale=scale)),
-            ("tBA", pe.paired_t_test, (fb, fa, cat), dict(alpha=alpha, scale=scale)),
-            ("tAA", pe.paired_t_test, (fa, fa, cat), dict(alpha=alpha, scale=scale)),
-            ("wAB", pe.w_test, (fa, fb, cat), dict(scale=scale)),
-            ("wBA", pe.w_test, (fb, fa, cat), dict(scale=scale)),
-            ("bAB", be.binary_paired_t_test, (fa, fb, cat), dict(alpha=alpha, scale=scale)),
-            ("bBA", be.binary_paired_t_test, (fb, fa, cat), dict(alpha=alpha, scale=scale))]:
+    midx = _MIDX
+    form = case.get("callform", "kw")
+
+    def targs(x, y):
+        if form == "positional":
+            return (x, y, cat, alpha, scale), {}
+        if form == "defaults":          # alpha is 0.05 here; scale only passed when set
+            return (x, y, cat), (dict(scale=True) if scale else {})
+        return (x, y, cat), dict(alpha=alpha, scale=scale)
+
+    def wargs(x, y):
+        if form == "positional":
+            return (x, y, cat, scale), {}
+        if form == "defaults":
+            return (x, y, cat), (dict(scale=True) if scale else {})
+        return (x, y, cat), dict(scale=scale)
+    for name, fn, (args, kw) in [
+            ("tAB", pe.paired_t_test, targs(fa, fb)),
+            ("tBA", pe.paired_t_test, targs(fb, fa)),
+            ("tAA", pe.paired_t_test, targs(fa, fa)),
+            ("wAB", pe.w_test, wargs(fa, fb)),
+            ("wBA", pe.w_test, wargs(fb, fa)),
+            ("bAB", be.binary_paired_t_test, targs(fa, fb)),
+            ("bBA", be.binary_paired_t_test, targs(fb, fa))]:
         try:
             out[name] = _call(fn, *args, **kw)
             if out[name] is None:
@@ -291,7 +345,18 @@ def _check(run, drv, pending, case, tag):
     rb = [float(db[c, m]) for c, m in case["ev"]]
     na = math.fsum(da.ravel().tolist()); nb = math.fsum(db.ravel().tolist())
     # ---- T-test: independent recomputation, antisymmetry, mirror, self-comparison
-    tab, tba, taa = _tres(out["tAB"]), _tres(out["tBA"]), _tres(out["tAA"])
+    try:
+        tab, tba, taa = _tres(out["tAB"]), _tres(out["tBA"]), _tres(out["tAA"])
+        bab, bba = _tres(out["bAB"]), _tres(out["bBA"])
+        zab, pab = float(out["wAB"].observed_statistic), float(out["wAB"].quantile)
+        zba, pba = float(out["wBA"].observed_statistic), float(out["wBA"].quantile)
+        ia, nfa = _call(fa.target_event_rates, cat, scale=scale)
+        ib, nfb = _call(fb.target_event_rates, cat, scale=scale)
+        ia = [float(v) for v in numpy.asarray(ia).ravel()]; ib = [float(v) for v in numpy.asarray(ib).ravel()]
+        counts_nz = sorted(set(int(i) for i in numpy.nonzero(numpy.asarray(cat.spatial_magnitude_counts()).ravel())[0]))
+    except Exception as e:
+        run.oracle_failure(short, f"a result cannot be read as the documented numbers: {type(e).__name__}: {e}")
+        return
     ref = _ref_t(ra, rb, n, na, nb, alpha)
     # Eq. 18 subtracts two sums of N terms: rounding of each sum (<= N ulps, summation order is free) is amplified by kappa
     cond_tol = 1e-9 + 2e-16 * max(n, 8) * ref["kappa"] if math.isfinite(ref["kappa"]) else float("inf")
@@ -314,16 +379,21 @@ def _check(run, drv, pending, case, tag):
     if not abs(taa["ig"]) <= 1e-12:
         run.oracle_failure(short, f"self-comparison has gain {taa['ig']!r}")
     # ---- W-test: rank arithmetic on the implementation's own rates (public target_event_rates), swap invariance
-    ia, _ = fa.target_event_rates(cat, scale=scale)
-    ib, _ = fb.target_event_rates(cat, scale=scale)
-    if list(map(float, ia)) != ra or list(map(float, ib)) != rb:
+    if ia != ra or ib != rb:
         run.oracle_failure(short, "target_event_rates are not the rates of the events' bins")
-    x = numpy.log(numpy.asarray(ia, dtype=float)) - numpy.log(numpy.asarray(ib, dtype=float))
-    n1, n2 = float(fa.event_count), float(fb.event_count)
+    with numpy.errstate(all="ignore"):
+        x = numpy.log(numpy.asarray(ia, dtype=float)) - numpy.log(numpy.asarray(ib, dtype=float))
+    try:
+        n1, n2 = float(fa.event_count), float(fb.event_count)
+    except Exception as e:
+        run.oracle_failure(short, f"event_count unreadable: {type(e).__name__}: {e}")
+        return
+    if not (numpy.all(numpy.isfinite(x)) and math.isfinite(n1) and math.isfinite(n2) and len(x) == n):
+        run.oracle_failure(short, f"target_event_rates / totals of positive-rate forecasts are not finite positive numbers, one per "
+                                  f"event: rates {ia[:5]!r} {ib[:5]!r}, totals {n1!r} {n2!r}")
+        return
     m = (n1 - n2) / n
     w = _ref_w(x, m)
-    zab, pab = float(out["wAB"].observed_statistic), float(out["wAB"].quantile)
-    zba, pba = float(out["wBA"].observed_statistic), float(out["wBA"].quantile)
     if w["count"] >= 1:
         zr = (float(w["t2"]) / 2 - float(w["mn4"]) / 4) / math.sqrt(float(w["se24"]) / 24)
         pr = 2.0 * float(scipy.stats.norm.sf(abs(zr)))
@@ -349,9 +419,7 @@ def _check(run, drv, pending, case, tag):
     else:
         run.count("w:no-difference-from-median (outside the quantifier)")
     # ---- binary variant: a result, the T formulas on the distinct active bins, antisymmetry
-    bab, bba = _tres(out["bAB"]), _tres(out["bBA"])
     act = sorted(set(c * nm + mm for c, mm in case["ev"]))
-    counts_nz = sorted(set(int(i) for i in numpy.nonzero(cat.spatial_magnitude_counts().ravel())[0]))
     if counts_nz != act:
         run.oracle_failure(short, f"active bins {counts_nz!r} are not the events' bins {act!r}")
     nact = len(act)
@@ -383,6 +451,36 @@ def _check(run, drv, pending, case, tag):
             run.count("binary:distinct-bins-equals-paired")
     else:
         run.count("binary:one-active-bin (N-1 = 0, nan result returned)")
+    # ---- the helpers called directly with their documented defaults / optional arguments
+    if case.get("helpers"):
+        try:
+            lons, lats, mg = cat.get_longitudes(), cat.get_latitudes(), cat.get_magnitudes()
+            r0 = [float(v) for v in fa.get_rates(lons, lats, mg)]                       # data=None: the forecast's own rates
+            r1, (ix, im) = fa.get_rates(lons, lats, mg, data=fa.data * 2.0, ret_inds=True)
+            want = [float(a[c, m]) for c, m in case["ev"]]
+            if r0 != want or [float(v) for v in r1] != [2.0 * v for v in want] \
+                    or [(int(i), int(j)) for i, j in zip(ix, im)] != [tuple(e) for e in case["ev"]]:
+                run.oracle_failure(short, "get_rates (data=None / data=, ret_inds=True) does not return the rates / indices of "
+                                          "the events' bins")
+            h = _call(pe._t_test_ndarray, numpy.array(ra), numpy.array(rb), n, na, nb)     # alpha left at its default 0.05
+            href = _ref_t(ra, rb, n, na, nb, 0.05)
+            if not (_same(float(h["information_gain"]), ref["ig"], 1e-9, 1e-9 * scale_ig)
+                    and _same(float(h["t_critical"]), href["tcrit"], 1e-9)):
+                run.oracle_failure(short, f"_t_test_ndarray with default alpha: {h!r}")
+            if w["count"] >= 1:
+                h0 = _call(pe._w_test_ndarray, numpy.asarray(w["d0"]))                     # m left at its default 0
+                if not (_same(float(h0["z_statistic"]), zab) and _same(float(h0["probability"]), pab)):
+                    run.oracle_failure(short, f"_w_test_ndarray(x - m) with default m differs from w_test: {h0!r} vs z={zab!r}")
+            run.count("helpers-called-directly")
+            if not case.get("nomodel"):
+                # the model's own bin index of every event (open-ended last magnitude bin) against the code's lookup
+                impl_flat = [int(i) * nm + int(j) for i, j in zip(ix, im)]
+                edges = ",".join(frac(4.0 + 0.5 * k) for k in range(nm))
+                q = drv.ask(f"c08_midx {edges} {','.join(str(c) for c, _ in case['ev'])} "
+                            f"{','.join(frac(float(v)) for v in mg)}")
+                midx.append((short, q, impl_flat))
+        except Exception as e:
+            run.oracle_failure(short, f"direct helper call: {type(e).__name__}: {e}")
     # ---- bookkeeping
     nontriv = w["tie"] or w["signs"] or (w["count"] < n)
     run.case(dict(kind=case["kind"], n=n, alpha=alpha, scale=scale, cells=case["nx"] * case["ny"], nm=nm, tag=tag),
@@ -393,6 +491,11 @@ def _check(run, drv, pending, case, tag):
     run.count("scale" if scale else "noscale")
     if degenerate:
         run.count("t:variance-ill-conditioned")
+    for fl in case.get("catflags") or []:
+        run.count("catalog:" + fl)
+    run.count("callform:" + form)
+    if case.get("nomodel"):
+        return      # very large cases: oracle only (the exact rank model is quadratic in the number of events)
     # ---- correspondence with the Lean model
     tc = float(scipy.stats.t.ppf(1 - alpha / 2, n - 1))
     i_t = drv.ask(f"c08_t {blist(ia)} {blist(ib)} {n} {bits(out_nf(fa, scale, case['days_a']))} "
@@ -432,6 +535,10 @@ def out_nf(f, scale, days):
 
 def _flush(run, drv, pending):
     out = drv.run()
+    for short, q, impl_flat in _MIDX:
+        if out[q] != ",".join(str(v) for v in impl_flat):
+            run.mismatch(short, impl_flat, out[q])
+    _MIDX.clear()
     bitexact = [0, 0]
     for short, i_t, i_w, i_b, tab, cond_tol, w, zab, bab, act, degenerate, bdeg, i_pt, i_pb, i_pw, totals in pending:
         # T: array-level model (rates and totals from the implementation) and public model (rates looked up and totals
@@ -499,6 +606,143 @@ def _flush(run, drv, pending):
     drv.lines.clear()
 
 
+
+# ----------------------------------------------------------------------------- sizes
+def _big_case(rng):
+    """more than 2^16 space-magnitude bins, more than 2^16 events, more than 65535 events in ONE bin (oracle only)"""
+    nx, ny, nm = 330, 200, 1
+    nc = nx * ny
+    g = numpy.random.default_rng(rng.randrange(2 ** 32))
+    a = g.uniform(0.01, 2.0, (nc, nm)); b = g.uniform(0.01, 2.0, (nc, nm))
+    hot = (rng.randrange(nc), 0)
+    ev = [hot] * 65600 + [(int(c), 0) for c in g.integers(0, nc, 4500)] + [(nc - 1, 0), (0, 0)]
+    rng.shuffle(ev)
+    return dict(kind="big", nx=nx, ny=ny, nm=nm, a=[float(v).hex() for v in a.ravel()], b=[float(v).hex() for v in b.ravel()],
+                ev=[list(e) for e in ev], alpha=0.05, scale=rng.random() < 0.5, days_a=365, days_b=365, nomodel=True)
+
+
+# ----------------------------------------------------------------------------- sessions on shared objects
+def _gen_session(rng):
+    """the objects of one generated case used for a SEQUENCE of public calls with changing arguments: tests in any order
+    and orientation with scale on and off, rescaling of a forecast object, an in-place magnitude cut of the catalog,
+    reads; after every step the result is compared with a recomputation from the harness's own bookkeeping"""
+    case = _gen_case(rng)
+    case.pop("fscale", None)
+    case["layout"] = "C" if case.get("layout") == "int64" else case.get("layout", "C")
+    steps = []
+    for _ in range(rng.randint(4, 8)):
+        op = rng.choice(["t", "t", "w", "w", "b", "fscale", "fscale", "catcut", "ntest", "rates", "counts", "shared"])
+        st = dict(op=op, order=rng.choice(["AB", "BA", "AA"]), scale=rng.random() < 0.5,
+                  alpha=rng.choice([0.05, 0.01, 0.1]))
+        if op == "fscale":
+            st.update(which=rng.choice("ab"), v=rng.choice([0.5, 2.0, 1, 3, 0.1, 10.0]))
+        if op == "catcut":
+            st["cut"] = rng.choice([4.5, 5.0])
+        steps.append(st)
+    case["steps"] = steps
+    case["kind"] = "session:" + case["kind"]
+    return case
+
+
+def _session(run, case):
+    import scipy.stats
+    from csep.core import poisson_evaluations as pe, binomial_evaluations as be
+    try:
+        fa, fb, cat, a0, b0 = _build(case)
+    except Exception as e:
+        run.oracle_failure(case, f"objects cannot be built: {type(e).__name__}: {e}")
+        return
+    snap_a, snap_b = a0.copy(), b0.copy()
+    nm = case["nm"]
+    fac = dict(a=1.0, b=1.0)
+    ev = [tuple(e) for e in case["ev"]]
+    pos = case.get("pos") or [[0.5, 0.5, 0.25]] * len(ev)
+    mags = [4.0 + 0.5 * m + p[2] for (_, m), p in zip(ev, pos)]
+    days = dict(a=case["days_a"], b=case["days_b"])
+    for k, st in enumerate(case["steps"], start=1):
+        short = dict(case, step=k, tag="session")
+        op, scale, alpha = st["op"], st["scale"], st["alpha"]
+        F = dict(A=("a", fa, a0), B=("b", fb, b0))
+        (k1, f1, d1_), (k2, f2, d2_) = F[st["order"][0]], F[st["order"][1]]
+        n = len(ev)
+        try:
+            if op == "fscale":
+                (fa if st["which"] == "a" else fb).scale(st["v"]); fac[st["which"]] = float(st["v"])
+                continue
+            if op == "catcut":
+                keep = [i for i, m in enumerate(mags) if m >= st["cut"]]
+                if len(keep) >= 2:
+                    cat.filter(f"magnitude >= {float(st['cut'])!r}")
+                    ev = [ev[i] for i in keep]; mags = [mags[i] for i in keep]
+                continue
+            if op == "ntest":
+                _call(pe.number_test, f1, cat); continue
+            if op == "rates":
+                _call(f1.target_event_rates, cat, scale=scale); continue
+            if op == "counts":
+                _call(cat.spatial_magnitude_counts); _call(f1.spatial_counts); continue
+            if op == "shared":
+                # a second forecast object on the SAME stored rates, rescaled: must not reach the first
+                from csep.core.forecasts import GriddedForecast
+                g2 = GriddedForecast(start_time=f1.start_time, end_time=f1.end_time, data=d1_,
+                                     region=f1.region, magnitudes=f1.magnitudes, name="twin")
+                g2.scale(7.0); _call(pe.paired_t_test, g2, f2, cat, scale=True); continue
+            fn = dict(t=pe.paired_t_test, w=pe.w_test, b=be.binary_paired_t_test)[op]
+            kw = dict(scale=scale) if op == "w" else dict(alpha=alpha, scale=scale)
+            res = _call(fn, f1, f2, cat, **kw)
+            if op == "w":
+                got = dict(z=float(res.observed_statistic), p=float(res.quantile))
+            else:
+                got = _tres(res)
+        except Exception as e:
+            run.oracle_failure(short, f"step {k} ({op} {st['order']} scale={scale}): {type(e).__name__}: {e}")
+            return
+        # recomputation from scratch: stored rates x current factor (/ days), the events the catalog holds now
+        ea, eb = d1_ * fac[k1], d2_ * fac[k2]
+        sa = ea / days[k1] if scale else ea
+        sb = eb / days[k2] if scale else eb
+        ra = [float(sa[c, m]) for c, m in ev]; rb = [float(sb[c, m]) for c, m in ev]
+        na, nb = math.fsum(sa.ravel().tolist()), math.fsum(sb.ravel().tolist())
+        ok, why = True, ""
+        if op == "t":
+            ref = _ref_t(ra, rb, n, na, nb, alpha)
+            s_ig = max(abs(ref["ig"]), 1e-4 * ref["mag"], 1e-300)
+            ok = _same(got["ig"], ref["ig"], 1e-9, 1e-9 * s_ig) and _same(got["tcrit"], ref["tcrit"], 1e-9)
+            ctol = 1e-9 + 2e-16 * max(n, 8) * ref["kappa"] if math.isfinite(ref["kappa"]) else float("inf")
+            if ok and ctol < 1e-6:
+                half = abs(ref["upper"] - ref["ig"])
+                ok = _same(got["lower"], ref["lower"], ctol, ctol * half + 1e-9 * s_ig) and \
+                    _same(got["upper"], ref["upper"], ctol, ctol * half + 1e-9 * s_ig)
+            why = f"paired T {got!r} but Eq. 17/18 on the current objects give ig={ref['ig']!r} [{ref['lower']!r}, {ref['upper']!r}]"
+        elif op == "w":
+            x = numpy.log(numpy.array(ra)) - numpy.log(numpy.array(rb))
+            t1, t2 = float(f1.event_count), float(f2.event_count)      # the totals of the null median, checked against
+            if not (_same(t1, math.fsum(ea.ravel().tolist()), 1e-12, 0.0) and _same(t2, math.fsum(eb.ravel().tolist()), 1e-12, 0.0)):
+                run.oracle_failure(short, f"step {k}: forecast totals {t1!r}, {t2!r} are not the sums of the current rates")
+                return
+            w = _ref_w(x, (t1 - t2) / n)
+            if w["count"] >= 1:
+                zr = (float(w["t2"]) / 2 - float(w["mn4"]) / 4) / math.sqrt(float(w["se24"]) / 24)
+                pr = 2.0 * float(scipy.stats.norm.sf(abs(zr)))
+                ok = _same(got["z"], zr) and _same(got["p"], pr)
+                why = f"W-test {got!r} but signed-rank arithmetic on the current objects gives z={zr!r} p={pr!r}"
+        else:
+            act = sorted(set(c * nm + mm for c, mm in ev))
+            if len(act) >= 2:
+                ref = _ref_t([float(ea.ravel()[i]) for i in act], [float(eb.ravel()[i]) for i in act], len(act), na, nb, alpha)
+                s_ig = max(abs(ref["ig"]), 1e-4 * ref["mag"], 1e-300)
+                ok = _same(got["ig"], ref["ig"], 1e-9, 1e-9 * s_ig) and _same(got["tcrit"], ref["tcrit"], 1e-9)
+                why = f"binary T {got!r} but the T formulas on the active bins of the current objects give ig={ref['ig']!r}"
+        if not ok:
+            run.oracle_failure(short, f"step {k} ({op} {st['order']} scale={scale}) after {[s['op'] for s in case['steps'][:k - 1]]}: {why}")
+            return
+        run.count("session-op:" + op)
+    if not (numpy.array_equal(snap_a, a0) and numpy.array_equal(snap_b, b0)):
+        run.oracle_failure(dict(case, tag="session"), "the rate arrays handed to the forecasts were changed by the calls")
+    run.case(dict(kind=case["kind"], n=len(case["ev"]), steps=[s["op"] for s in case["steps"]], tag="session"),
+             ("session", tuple(case["a"][:4]), tuple(s["op"] for s in case["steps"])))
+
+
 CORPUS = [
     # the suite's 2x2 example shape: two cells, two events, plain rates
     dict(kind="corpus", nx=2, ny=1, nm=1, a=[(1.0).hex(), (2.0).hex()], b=[(2.0).hex(), (1.0).hex()], ev=[[0, 0], [1, 0]],
@@ -519,16 +763,24 @@ def run(run, rng, tier):
     validate_soft64(run, rng, 300 if tier == "quick" else 2000)
     for c in CORPUS:
         _check(run, drv, pending, c, "corpus")
+    for _ in range(1 if tier == "quick" else 3):
+        _check(run, drv, pending, _big_case(rng), "sizes")
     for k in range(700 if tier == "quick" else 20000):
         _check(run, drv, pending, _gen_case(rng), "gen")
         if len(pending) >= 400:
             _flush(run, drv, pending)
     _flush(run, drv, pending)
+    for k in range(150 if tier == "quick" else 4000):
+        _session(run, _gen_session(rng))
 
 
 def replay(run, payload):
     case = dict(payload["case"])
     case.pop("tag", None)
     drv, pending = Driver(), []
+    if "steps" in case:
+        case.pop("step", None)
+        _session(run, case)
+        return
     _check(run, drv, pending, case, "replay")
     _flush(run, drv, pending)
